@@ -20,6 +20,8 @@ type BuilderView struct {
 	// ScalarFields: field name -> scalar kind, for plain (unconstrained, non-constant) scalar fields
 	ScalarFields map[string]string
 	Factories    int
+	// DirectStruct: the built object's own type is a struct (not an alias resolved to one)
+	DirectStruct bool
 }
 
 type OptionView struct {
@@ -35,6 +37,7 @@ func BuildersViewOf(schemas ast.Schemas, builders ast.Builders) []BuilderView {
 	for _, b := range builders {
 		bv := BuilderView{Pkg: b.Package, Name: b.Name, Object: b.For.Name, RefFields: map[string]string{}, ScalarFields: map[string]string{}}
 		t := schemas.ResolveToType(b.For.Type)
+		bv.DirectStruct = b.For.Type.Kind == ast.KindStruct
 		if t.Kind == ast.KindStruct && t.Struct != nil {
 			seenField := map[string]int{}
 			for _, f := range t.Struct.Fields {
@@ -103,6 +106,9 @@ type RuleSpec struct {
 	// Misconfigured: the generator knows the parameters do not fit together
 	// (merge_into whose source is not the type found under the path)
 	Misconfigured bool `json:"misconfigured,omitempty"`
+	// PathDirect: every object the path walks through (the destination's included) is a
+	// struct as it stands, not an alias: what Builder.MakePath follows by its one-hop resolution
+	PathDirect bool `json:"path_direct,omitempty"`
 }
 
 var builderRuleKinds = []string{"omit", "rename", "merge_into", "compose", "properties", "duplicate", "initialize", "promote_options_to_constructor", "add_option", "add_factory"}
@@ -184,7 +190,8 @@ func GenRuleSpec(r *Rand, bvs []BuilderView, pkg string, scope string, kind stri
 			if len(b.RefFields) > 0 && r.Chance(5, 6) {
 				find := func(obj string) *BuilderView {
 					for i := range bvs {
-						if bvs[i].Pkg == pkg && bvs[i].Object == obj && bvs[i].Name == obj {
+						// whatever its name: a renamed builder still builds its object
+						if bvs[i].Pkg == pkg && bvs[i].Object == obj {
 							return &bvs[i]
 						}
 					}
@@ -194,6 +201,7 @@ func GenRuleSpec(r *Rand, bvs []BuilderView, pkg string, scope string, kind stri
 				var segs []string
 				depth := Pick(r, []int{1, 2, 3, 3, 3, 4, 5})
 				visited := map[string]bool{b.Object: true}
+				direct := b.DirectStruct
 				for len(segs) < depth && len(cur.RefFields) > 0 {
 					f := Pick(r, SortedKeys(cur.RefFields))
 					next := find(cur.RefFields[f])
@@ -203,9 +211,10 @@ func GenRuleSpec(r *Rand, bvs []BuilderView, pkg string, scope string, kind stri
 					visited[next.Object] = true
 					segs = append(segs, f)
 					cur = next
+					direct = direct && next.DirectStruct
 				}
 				if len(segs) > 0 {
-					rs.SelA, rs.Source, rs.Path, rs.Misconfigured = b.Name, cur.Name, strings.Join(segs, "."), false
+					rs.SelA, rs.Source, rs.Path, rs.Misconfigured, rs.PathDirect = b.Name, cur.Name, strings.Join(segs, "."), false, direct
 				}
 			}
 			// a destination name that matches several builders case-insensitively
@@ -217,6 +226,17 @@ func GenRuleSpec(r *Rand, bvs []BuilderView, pkg string, scope string, kind stri
 				}
 			}
 			if nDest > 1 {
+				rs.Misconfigured = true
+			}
+			// the same goes for a source name several builders answer to (after a
+			// rename that gave one name to many)
+			nSrc := 0
+			for i := range bvs {
+				if strings.EqualFold(bvs[i].Name, rs.Source) {
+					nSrc++
+				}
+			}
+			if nSrc > 1 {
 				rs.Misconfigured = true
 			}
 			if r.Chance(1, 3) {
@@ -407,7 +427,12 @@ func (rs RuleSpec) YAML() string {
 			}
 			if len(rs.Map) > 0 {
 				p("      rename_options:")
+				seen := map[string]bool{}
 				for _, kv := range rs.Map {
+					if seen[kv[0]] {
+						continue // a YAML mapping cannot hold the same key twice
+					}
+					seen[kv[0]] = true
 					p("        %s: %s", yq(kv[0]), yq(kv[1]))
 				}
 			}
